@@ -71,6 +71,12 @@ pub fn install_hook() {
     }));
 }
 
+/// A panic recorded by the hook since the last `catch` began (panics inside spawned tokio tasks
+/// are caught by the runtime, not by `catch`).
+pub fn take_last() -> Option<Caught> {
+    LAST.with(|l| l.borrow_mut().take())
+}
+
 pub fn catch<R>(f: impl FnOnce() -> R) -> Result<R, Caught> {
     LAST.with(|l| *l.borrow_mut() = None);
     match panic::catch_unwind(AssertUnwindSafe(f)) {
